@@ -3,10 +3,14 @@ package j5convert
 import (
 	"buf.build/gen/go/bufbuild/protovalidate/protocolbuffers/go/buf/validate"
 	"github.com/iancoleman/strcase"
+	"github.com/pentops/j5/gen/j5/client/v1/client_j5pb"
 	"github.com/pentops/j5/gen/j5/ext/v1/ext_j5pb"
 	"github.com/pentops/j5/gen/j5/list/v1/list_j5pb"
+	"github.com/pentops/j5/gen/j5/messaging/v1/messaging_j5pb"
 	"github.com/pentops/j5/gen/j5/schema/v1/schema_j5pb"
 	"github.com/pentops/j5/gen/j5/sourcedef/v1/sourcedef_j5pb"
+	"github.com/pentops/j5/internal/bcl/errpos"
+	"google.golang.org/genproto/googleapis/api/annotations"
 	"google.golang.org/protobuf/proto"
 	"google.golang.org/protobuf/types/descriptorpb"
 )
@@ -637,7 +641,7 @@ func HarnessFieldFeatureIsolation() {
 // ---------- C07 H07a: semantic faults are reported, not crashed on ----------
 
 func HarnessSemanticFaults() {
-	fault := ndChoice("fault", 9)
+	fault := ndChoice("fault", 13)
 	props := []*schema_j5pb.ObjectProperty{{Name: "ok", Schema: verifField(fString)}}
 	var elements []*sourcedef_j5pb.RootElement
 	switch fault {
@@ -660,6 +664,21 @@ func HarnessSemanticFaults() {
 			Schema: &schema_j5pb.ObjectField_Ref{Ref: &schema_j5pb.Ref{Package: "other.v1", Schema: "Colour"}}}}}})
 	case 7: // a top-level oneof without a name
 		elements = append(elements, verifOneofElement("", []*schema_j5pb.ObjectProperty{{Name: "x", Schema: verifField(fString)}}))
+	case 9: // service method without a request
+		nm := "Svc"
+		elements = append(elements, &sourcedef_j5pb.RootElement{Type: &sourcedef_j5pb.RootElement_Service{Service: &sourcedef_j5pb.Service{Name: &nm,
+			Methods: []*sourcedef_j5pb.APIMethod{{Name: "Do", HttpPath: "do", HttpMethod: client_j5pb.HTTPMethod_POST}}}}})
+	case 10: // unsupported http method
+		nm := "Svc"
+		elements = append(elements, &sourcedef_j5pb.RootElement{Type: &sourcedef_j5pb.RootElement_Service{Service: &sourcedef_j5pb.Service{Name: &nm,
+			Methods: []*sourcedef_j5pb.APIMethod{{Name: "Do", HttpPath: "do", Request: &sourcedef_j5pb.AnonymousObject{}}}}}})
+	case 11: // path parameter that is not a request property
+		nm := "Svc"
+		elements = append(elements, &sourcedef_j5pb.RootElement{Type: &sourcedef_j5pb.RootElement_Service{Service: &sourcedef_j5pb.Service{Name: &nm,
+			Methods: []*sourcedef_j5pb.APIMethod{{Name: "Do", HttpPath: "do/:missing", HttpMethod: client_j5pb.HTTPMethod_GET, Request: &sourcedef_j5pb.AnonymousObject{}}}}}})
+	case 12: // service without a name
+		elements = append(elements, &sourcedef_j5pb.RootElement{Type: &sourcedef_j5pb.RootElement_Service{Service: &sourcedef_j5pb.Service{
+			Methods: []*sourcedef_j5pb.APIMethod{{Name: "Do", HttpPath: "do", HttpMethod: client_j5pb.HTTPMethod_GET, Request: &sourcedef_j5pb.AnonymousObject{}}}}}})
 	case 8: // unspecified float / integer format
 		if ndBool("float") {
 			props = append(props, &schema_j5pb.ObjectProperty{Name: "bad", Schema: &schema_j5pb.Field{Type: &schema_j5pb.Field_Float{Float: &schema_j5pb.FloatField{}}}})
@@ -822,4 +841,801 @@ func HarnessIntegerBounds() {
 		}
 	}
 	verifAssert(verifAcceptsInt(ext, kind, v) == want, "accepts-iff-declared-bounds"+tag)
+}
+
+// ---------- C13: append edits leave existing wire identities unchanged ----------
+
+func verifSameField(a, b *descriptorpb.FieldDescriptorProto) bool {
+	return verifAll(a.GetName() == b.GetName(), a.GetNumber() == b.GetNumber(), a.GetType() == b.GetType(), a.GetTypeName() == b.GetTypeName(),
+		a.GetLabel() == b.GetLabel(), a.GetJsonName() == b.GetJsonName(), (a.OneofIndex == nil) == (b.OneofIndex == nil), a.GetOneofIndex() == b.GetOneofIndex(),
+		a.GetProto3Optional() == b.GetProto3Optional())
+}
+
+func verifSameEnumPrefix(a, b *descriptorpb.EnumDescriptorProto) bool {
+	// every value of a is in b at the same index with the same name and number
+	if a.GetName() != b.GetName() || len(b.Value) < len(a.Value) {
+		return false
+	}
+	ok := true
+	for i, v := range a.Value {
+		ok = verifAll(ok, v.GetName() == b.Value[i].GetName(), v.GetNumber() == b.Value[i].GetNumber())
+	}
+	return ok
+}
+
+// verifMessagePreserved: every field / nested type / nested enum of a is in b, unchanged.
+func verifMessagePreserved(a, b *descriptorpb.DescriptorProto) bool {
+	if a.GetName() != b.GetName() || len(b.Field) < len(a.Field) || len(b.NestedType) < len(a.NestedType) || len(b.EnumType) < len(a.EnumType) {
+		return false
+	}
+	ok := true
+	for i, f := range a.Field {
+		ok = verifAll(ok, verifSameField(f, b.Field[i]))
+	}
+	for _, n := range a.NestedType {
+		var m *descriptorpb.DescriptorProto
+		for _, x := range b.NestedType {
+			if x.GetName() == n.GetName() {
+				m = x
+			}
+		}
+		if m == nil {
+			return false
+		}
+		ok = verifAll(ok, verifMessagePreserved(n, m))
+	}
+	for _, e := range a.EnumType {
+		var m *descriptorpb.EnumDescriptorProto
+		for _, x := range b.EnumType {
+			if x.GetName() == e.GetName() {
+				m = x
+			}
+		}
+		if m == nil {
+			return false
+		}
+		ok = verifAll(ok, verifSameEnumPrefix(e, m))
+	}
+	return ok
+}
+
+func verifFilePreserved(a, b *descriptorpb.FileDescriptorProto) bool {
+	if a.GetName() != b.GetName() || a.GetPackage() != b.GetPackage() {
+		return false
+	}
+	ok := true
+	for _, m := range a.MessageType {
+		x := verifFindMessage(b, m.GetName())
+		if x == nil {
+			return false
+		}
+		ok = verifAll(ok, verifMessagePreserved(m, x))
+	}
+	for _, e := range a.EnumType {
+		var x *descriptorpb.EnumDescriptorProto
+		for _, y := range b.EnumType {
+			if y.GetName() == e.GetName() {
+				x = y
+			}
+		}
+		if x == nil {
+			return false
+		}
+		ok = verifAll(ok, verifSameEnumPrefix(e, x))
+	}
+	return ok
+}
+
+const (
+	eObjectField = iota
+	eOneofField
+	eEnumOption
+	eTopLevelObject
+	eTopLevelEnum
+	eNestedInlineField
+	eEdits
+)
+
+func HarnessAppendPreservesIdentities() {
+	// the base package: an object (with one symbolic-kind property), a oneof, an enum
+	n := ndIntRange("nprops", 0, verifParam("P", 2))
+	focusKind := ndChoice("kind", fKinds)
+	focusCard := ndChoice("cardinality", 3)
+	k := ndIntRange("options", 0, 2)
+	edit := ndChoice("edit", eEdits)
+	edits := 1 + ndIntRange("moreEdits", 0, verifParam("E", 0))
+	// the appended declaration: a scalar, an inline object, an inline enum or a foreign ref
+	newKind := []int{fString, fObjectInline, fEnumInline, fObjectRef}[ndChoice("newKind", 4)]
+	build := func(applied int) *sourcedef_j5pb.SourceFile {
+		props := []*schema_j5pb.ObjectProperty{}
+		for i := 0; i < n; i++ {
+			f := verifField(fString)
+			if i == 0 {
+				f = verifField(focusKind)
+				switch focusCard {
+				case 1:
+					f = &schema_j5pb.Field{Type: &schema_j5pb.Field_Array{Array: &schema_j5pb.ArrayField{Items: f}}}
+				case 2:
+					f = &schema_j5pb.Field{Type: &schema_j5pb.Field_Map{Map: &schema_j5pb.MapField{ItemSchema: f}}}
+				}
+			}
+			props = append(props, &schema_j5pb.ObjectProperty{Name: verifPropNames[i], Schema: f})
+		}
+		oneofProps := []*schema_j5pb.ObjectProperty{{Name: "one", Schema: verifField(fString)}, {Name: "two", Schema: verifField(fObjectInline)}}
+		opts := []*schema_j5pb.Enum_Option{}
+		for i := 0; i < k; i++ {
+			opts = append(opts, &schema_j5pb.Enum_Option{Name: []string{"A", "B"}[i]})
+		}
+		var extraElements []*sourcedef_j5pb.RootElement
+		for e := 0; e < applied; e++ {
+			nm := verifPropNames[4+e]
+			switch edit {
+			case eObjectField:
+				props = append(props, &schema_j5pb.ObjectProperty{Name: nm, Schema: verifField(newKind)})
+			case eOneofField:
+				oneofProps = append(oneofProps, &schema_j5pb.ObjectProperty{Name: nm, Schema: verifField(newKind)})
+			case eEnumOption:
+				opts = append(opts, &schema_j5pb.Enum_Option{Name: []string{"Y", "Z"}[e]})
+			case eTopLevelObject:
+				extraElements = append(extraElements, verifObjectElement([]string{"Later", "Later2"}[e], []*schema_j5pb.ObjectProperty{{Name: "x", Schema: verifField(newKind)}}))
+			case eTopLevelEnum:
+				extraElements = append(extraElements, &sourcedef_j5pb.RootElement{Type: &sourcedef_j5pb.RootElement_Enum{Enum: &schema_j5pb.Enum{
+					Name: []string{"LaterEnum", "LaterEnum2"}[e], Options: []*schema_j5pb.Enum_Option{{Name: "Q"}}}}})
+			case eNestedInlineField:
+				// a field appended inside the inline object of the oneof's second option
+				inl := oneofProps[1].Schema.GetObject().GetObject()
+				inl.Properties = append(inl.Properties, &schema_j5pb.ObjectProperty{Name: nm, Schema: verifField(newKind)})
+			}
+		}
+		els := []*sourcedef_j5pb.RootElement{
+			verifObjectElement("Thing", props),
+			verifOneofElement("Choice", oneofProps),
+			{Type: &sourcedef_j5pb.RootElement_Enum{Enum: &schema_j5pb.Enum{Name: "Kind", Options: opts}}},
+		}
+		els = append(els, extraElements...)
+		return verifSourceFile(els...)
+	}
+	before, err1 := ConvertJ5File(verifDeps{}, build(0))
+	after, err2 := ConvertJ5File(verifDeps{}, build(edits))
+	verifAssert(err1 == nil && err2 == nil, "both-compile")
+	if err1 != nil || err2 != nil {
+		return
+	}
+	verifAssert(len(before) == 1 && len(after) == 1, "one-file-each")
+	if len(before) != 1 || len(after) != 1 {
+		return
+	}
+	verifAssert(verifFilePreserved(before[0], after[0]), "existing-elements-unchanged")
+}
+
+// ---------- C14 ----------
+
+// H14b: the import list is sorted, duplicate free and independent of the order
+// in which imports were registered.
+func HarnessImportOrder() {
+	n := ndIntRange("n", 0, verifParam("N", 4))
+	paths := make([]string, n)
+	for i := range paths {
+		// symbolic path "x/<c>.proto" over a small alphabet
+		c := 'a' + ndByte("c")%4
+		paths[i] = "x/" + string([]byte{c}) + ".proto"
+	}
+	a := newFileContext("a/v1/x.j5s.proto")
+	for _, p := range paths {
+		a.ensureImport(p)
+	}
+	// a second registration order: rotate by a symbolic amount and optionally reverse
+	b := newFileContext("a/v1/x.j5s.proto")
+	rot := 0
+	if n > 0 {
+		rot = ndIntRange("rot", 0, n-1)
+	}
+	rev := ndBool("reverse")
+	for i := 0; i < n; i++ {
+		k := (i + rot) % n
+		if rev {
+			k = n - 1 - k
+		}
+		b.ensureImport(paths[k])
+	}
+	da, db := a.fdp.Dependency, b.fdp.Dependency
+	for i := 1; i < len(da); i++ {
+		verifAssert(da[i-1] < da[i], "dependencies-sorted-and-unique")
+	}
+	verifAssert(len(da) == len(db), "same-import-count-for-any-order")
+	if len(da) == len(db) {
+		for i := range da {
+			verifAssert(da[i] == db[i], "same-imports-for-any-order")
+		}
+	}
+	for _, p := range paths {
+		found := false
+		for _, d := range da {
+			if d == p {
+				found = true
+			}
+		}
+		verifAssert(found, "every-registered-import-present")
+	}
+}
+
+func verifFileEqual(a, b *descriptorpb.FileDescriptorProto) bool {
+	if len(a.Dependency) != len(b.Dependency) || len(a.MessageType) != len(b.MessageType) || len(a.EnumType) != len(b.EnumType) || len(a.Service) != len(b.Service) {
+		return false
+	}
+	ok := verifAll(a.GetName() == b.GetName(), a.GetPackage() == b.GetPackage())
+	for i := range a.Dependency {
+		ok = verifAll(ok, a.Dependency[i] == b.Dependency[i])
+	}
+	for i := range a.MessageType {
+		ok = verifAll(ok, verifMessagePreserved(a.MessageType[i], b.MessageType[i]), verifMessagePreserved(b.MessageType[i], a.MessageType[i]))
+	}
+	for i := range a.EnumType {
+		ok = verifAll(ok, verifSameEnumPrefix(a.EnumType[i], b.EnumType[i]), len(a.EnumType[i].Value) == len(b.EnumType[i].Value))
+	}
+	for i := range a.Service {
+		ok = verifAll(ok, a.Service[i].GetName() == b.Service[i].GetName(), len(a.Service[i].Method) == len(b.Service[i].Method))
+	}
+	return ok
+}
+
+// H14a: converting the same source twice gives the same files in the same
+// order. Run with engine.maporder > 0: every range over a Go map with up to
+// that many entries is a choice point, the two runs get independent orders.
+func HarnessConvertDeterministic() {
+	kind := ndChoice("kind", fKinds)
+	build := func() *sourcedef_j5pb.SourceFile {
+		src := verifSourceFile(
+			verifObjectElement("Thing", []*schema_j5pb.ObjectProperty{
+				{Name: "alpha", Schema: verifField(kind)},
+				{Name: "beta", Schema: verifField(fDate)},
+				{Name: "gamma", Schema: verifField(fEnumRef)},
+				{Name: "delta", Schema: verifField(fTimestamp), Required: true},
+			}),
+			verifOneofElement("Choice", []*schema_j5pb.ObjectProperty{{Name: "one", Schema: verifField(fObjectRef)}, {Name: "two", Schema: verifField(fAny)}}),
+		)
+		src.Imports = append(src.Imports, &sourcedef_j5pb.Import{Path: "third.v1", Alias: "t"}, &sourcedef_j5pb.Import{Path: "fourth/v1/f.proto"})
+		return src
+	}
+	f1, err1 := ConvertJ5File(verifDeps{}, build())
+	f2, err2 := ConvertJ5File(verifDeps{}, build())
+	verifAssert((err1 == nil) == (err2 == nil), "same-verdict")
+	if err1 != nil || err2 != nil {
+		return
+	}
+	verifAssert(len(f1) == len(f2), "same-file-count")
+	if len(f1) != len(f2) {
+		return
+	}
+	for i := range f1 {
+		verifAssert(verifFileEqual(f1[i], f2[i]), "same-descriptor")
+	}
+}
+
+// ---------- resolver over the file's own summary (as protobuild does) ----------
+
+type verifWarnings struct{}
+
+func (verifWarnings) WarnPos(pos *errpos.Position, err error) {}
+
+type verifSelfDeps struct {
+	summary *FileSummary
+}
+
+func (d verifSelfDeps) ResolveType(pkg string, name string) (*TypeRef, error) {
+	if d.summary != nil && pkg == d.summary.Package {
+		if t, ok := d.summary.Exports[name]; ok {
+			return t, nil
+		}
+	}
+	return verifDeps{}.ResolveType(pkg, name)
+}
+
+// verifCompile: SourceSummary then ConvertJ5File, the order protobuild uses.
+func verifCompile(src *sourcedef_j5pb.SourceFile) ([]*descriptorpb.FileDescriptorProto, error) {
+	summary, err := SourceSummary(src, verifWarnings{})
+	if err != nil {
+		return nil, err
+	}
+	return ConvertJ5File(verifSelfDeps{summary: summary}, src)
+}
+
+func verifFindFile(files []*descriptorpb.FileDescriptorProto, name string) *descriptorpb.FileDescriptorProto {
+	for _, f := range files {
+		if f.GetName() == name {
+			return f
+		}
+	}
+	return nil
+}
+
+func verifFindService(fd *descriptorpb.FileDescriptorProto, name string) *descriptorpb.ServiceDescriptorProto {
+	for _, s := range fd.Service {
+		if s.GetName() == name {
+			return s
+		}
+	}
+	return nil
+}
+
+func verifFindMethod(s *descriptorpb.ServiceDescriptorProto, name string) *descriptorpb.MethodDescriptorProto {
+	for _, m := range s.Method {
+		if m.GetName() == name {
+			return m
+		}
+	}
+	return nil
+}
+
+func verifHTTP(m *descriptorpb.MethodDescriptorProto) (verb string, path string, body string) {
+	rule, _ := proto.GetExtension(m.Options, annotations.E_Http).(*annotations.HttpRule)
+	if rule == nil {
+		return "", "", ""
+	}
+	switch p := rule.Pattern.(type) {
+	case *annotations.HttpRule_Get:
+		return "GET", p.Get, rule.Body
+	case *annotations.HttpRule_Post:
+		return "POST", p.Post, rule.Body
+	case *annotations.HttpRule_Put:
+		return "PUT", p.Put, rule.Body
+	case *annotations.HttpRule_Delete:
+		return "DELETE", p.Delete, rule.Body
+	case *annotations.HttpRule_Patch:
+		return "PATCH", p.Patch, rule.Body
+	}
+	return "?", "", rule.Body
+}
+
+// ---------- C02 H02c: services ----------
+
+func HarnessConvertService() {
+	verbs := []client_j5pb.HTTPMethod{client_j5pb.HTTPMethod_GET, client_j5pb.HTTPMethod_POST, client_j5pb.HTTPMethod_PUT, client_j5pb.HTTPMethod_DELETE, client_j5pb.HTTPMethod_PATCH}
+	verbNames := []string{"GET", "POST", "PUT", "DELETE", "PATCH"}
+	nMethods := ndIntRange("methods", 1, verifParam("M", 2))
+	hasBase := ndBool("basePath")
+	type spec struct {
+		verb        int
+		params      int
+		hasResponse bool
+	}
+	specs := make([]spec, nMethods)
+	methods := []*sourcedef_j5pb.APIMethod{}
+	for i := range specs {
+		specs[i] = spec{verb: ndChoice("verb", len(verbs)), params: ndIntRange("pathParams", 0, 2), hasResponse: ndBool("response")}
+		name := []string{"GetThing", "PutOther"}[i]
+		path := "things"
+		reqProps := []*schema_j5pb.ObjectProperty{}
+		for k := 0; k < specs[i].params; k++ {
+			pn := []string{"thingId", "subKey"}[k]
+			path += "/:" + pn
+			reqProps = append(reqProps, &schema_j5pb.ObjectProperty{Name: pn, Schema: verifField(fKey), Required: true})
+		}
+		reqProps = append(reqProps, &schema_j5pb.ObjectProperty{Name: "extra", Schema: verifField(fString)})
+		m := &sourcedef_j5pb.APIMethod{Name: name, HttpPath: path, HttpMethod: verbs[specs[i].verb], Request: &sourcedef_j5pb.AnonymousObject{Properties: reqProps}}
+		if specs[i].hasResponse {
+			m.Response = &sourcedef_j5pb.AnonymousObject{Properties: []*schema_j5pb.ObjectProperty{{Name: "result", Schema: verifField(fString)}}}
+		}
+		methods = append(methods, m)
+	}
+	svcName := "Widget"
+	svc := &sourcedef_j5pb.Service{Name: &svcName, Methods: methods}
+	base := "/a/v1"
+	if hasBase {
+		svc.BasePath = &base
+	}
+	src := verifSourceFile(&sourcedef_j5pb.RootElement{Type: &sourcedef_j5pb.RootElement_Service{Service: svc}})
+	files, err := verifCompile(src)
+	verifAssert(err == nil, "service-accepted")
+	if err != nil {
+		return
+	}
+	fd := verifFindFile(files, "a/v1/service/x.p.j5s.proto")
+	verifAssert(fd != nil, "service-file-in-service-subpackage")
+	if fd == nil {
+		return
+	}
+	verifAssert(fd.GetPackage() == "a.v1.service", "service-package")
+	s := verifFindService(fd, "WidgetService")
+	verifAssert(s != nil && len(fd.Service) == 1, "exactly-the-declared-service")
+	if s == nil {
+		return
+	}
+	verifAssert(len(s.Method) == nMethods, "exactly-the-declared-methods")
+	for i, sp := range specs {
+		name := []string{"GetThing", "PutOther"}[i]
+		m := verifFindMethod(s, name)
+		verifAssert(m != nil, "method-present")
+		if m == nil {
+			continue
+		}
+		verifAssert(m.GetInputType() == name+"Request", "input-is-MethodRequest")
+		req := verifFindMessage(fd, name+"Request")
+		verifAssert(req != nil, "request-message-emitted")
+		if sp.hasResponse {
+			verifAssert(m.GetOutputType() == name+"Response" && verifFindMessage(fd, name+"Response") != nil, "output-is-MethodResponse")
+		} else {
+			verifAssert(m.GetOutputType() == "google.api.HttpBody" && verifHasDep(fd, "google/api/httpbody.proto"), "no-response-is-HttpBody")
+		}
+		verb, path, body := verifHTTP(m)
+		want := "things"
+		if hasBase {
+			want = "/a/v1/things"
+		}
+		for k := 0; k < sp.params; k++ {
+			want += "/{" + []string{"thing_id", "sub_key"}[k] + "}"
+		}
+		verifAssert(verb == verbNames[sp.verb], "http-verb-as-declared")
+		verifAssert(path == want, "http-path-with-snake-case-params")
+		verifAssert((body == "*") == (sp.verb != 0), "body-star-unless-GET")
+		verifAssert(verifHasDep(fd, "google/api/annotations.proto"), "http-annotation-imported")
+		// each path parameter names a request property
+		if req != nil {
+			for k := 0; k < sp.params; k++ {
+				found := false
+				for _, f := range req.Field {
+					if f.GetName() == []string{"thing_id", "sub_key"}[k] {
+						found = true
+					}
+				}
+				verifAssert(found, "path-parameter-is-a-request-field")
+			}
+		}
+	}
+}
+
+// ---------- C02 H02c: topics ----------
+
+func HarnessConvertTopic() {
+	kind := ndChoice("topicKind", 3) // publish, reqres, upsert
+	fields := []*schema_j5pb.ObjectProperty{{Name: "payload", Schema: verifField(fString)}}
+	var tt *sourcedef_j5pb.TopicType
+	nMsgs := 1
+	switch kind {
+	case 0:
+		nMsgs = ndIntRange("messages", 1, 2)
+		msgs := []*sourcedef_j5pb.TopicMethod{}
+		for i := 0; i < nMsgs; i++ {
+			nm := []string{"Created", "Deleted"}[i]
+			msgs = append(msgs, &sourcedef_j5pb.TopicMethod{Name: &nm, Fields: fields})
+		}
+		tt = &sourcedef_j5pb.TopicType{Type: &sourcedef_j5pb.TopicType_Publish_{Publish: &sourcedef_j5pb.TopicType_Publish{Messages: msgs}}}
+	case 1:
+		tt = &sourcedef_j5pb.TopicType{Type: &sourcedef_j5pb.TopicType_Reqres{Reqres: &sourcedef_j5pb.TopicType_ReqRes{
+			Request: []*sourcedef_j5pb.TopicMethod{{Fields: fields}},
+			Reply:   []*sourcedef_j5pb.TopicMethod{{Fields: fields}},
+		}}}
+	case 2:
+		tt = &sourcedef_j5pb.TopicType{Type: &sourcedef_j5pb.TopicType_Upsert_{Upsert: &sourcedef_j5pb.TopicType_Upsert{
+			EntityName: "a.v1.Thing", Message: &sourcedef_j5pb.TopicMethod{Fields: fields}}}}
+	}
+	src := verifSourceFile(&sourcedef_j5pb.RootElement{Type: &sourcedef_j5pb.RootElement_Topic{Topic: &sourcedef_j5pb.Topic{Name: "Widget", Type: tt}}})
+	files, err := verifCompile(src)
+	verifAssert(err == nil, "topic-accepted")
+	if err != nil {
+		return
+	}
+	fd := verifFindFile(files, "a/v1/topic/x.p.j5s.proto")
+	verifAssert(fd != nil && fd.GetPackage() == "a.v1.topic", "topic-file-in-topic-subpackage")
+	if fd == nil {
+		return
+	}
+	checkTopic := func(svcName string, method string, message string, firstField string, role string) {
+		s := verifFindService(fd, svcName)
+		verifAssert(s != nil, "topic-service-named-NameTopic")
+		if s == nil {
+			return
+		}
+		m := verifFindMethod(s, method)
+		verifAssert(m != nil && m.GetInputType() == message && m.GetOutputType() == ".google.protobuf.Empty", "topic-method-takes-NameMessage-returns-Empty")
+		msg := verifFindMessage(fd, message)
+		verifAssert(msg != nil, "topic-message-emitted")
+		if msg != nil && firstField != "" {
+			verifAssert(len(msg.Field) == 2 && msg.Field[0].GetName() == firstField && msg.Field[0].GetNumber() == 1 && msg.Field[1].GetName() == "payload" && msg.Field[1].GetNumber() == 2, "implicit-leading-metadata-field-then-declared")
+		}
+		if msg != nil && firstField == "" {
+			verifAssert(len(msg.Field) == 1 && msg.Field[0].GetNumber() == 1, "declared-fields-numbered-from-1")
+		}
+		cfg, _ := proto.GetExtension(s.Options, messaging_j5pb.E_Service).(*messaging_j5pb.ServiceConfig)
+		verifAssert(cfg != nil, "messaging-annotation-present")
+		if cfg != nil {
+			got := ""
+			switch cfg.Role.(type) {
+			case *messaging_j5pb.ServiceConfig_Publish_:
+				got = "publish"
+			case *messaging_j5pb.ServiceConfig_Request_:
+				got = "request"
+			case *messaging_j5pb.ServiceConfig_Reply_:
+				got = "reply"
+			case *messaging_j5pb.ServiceConfig_Upsert_:
+				got = "upsert"
+			case *messaging_j5pb.ServiceConfig_Event_:
+				got = "event"
+			}
+			verifAssert(got == role, "documented-messaging-role")
+			verifAssert(cfg.GetTopicName() == "widget", "topic-name-snake-case")
+		}
+		verifAssert(verifHasDep(fd, "j5/messaging/v1/annotations.proto") && verifHasDep(fd, "google/protobuf/empty.proto"), "topic-imports")
+	}
+	switch kind {
+	case 0:
+		for i := 0; i < nMsgs; i++ {
+			nm := []string{"Created", "Deleted"}[i]
+			checkTopic("WidgetTopic", nm, nm+"Message", "", "publish")
+		}
+	case 1:
+		checkTopic("WidgetRequestTopic", "WidgetRequest", "WidgetRequestMessage", "request", "request")
+		checkTopic("WidgetReplyTopic", "WidgetReply", "WidgetReplyMessage", "request", "reply")
+	case 2:
+		checkTopic("WidgetTopic", "Widget", "WidgetMessage", "upsert", "upsert")
+	}
+}
+
+// ---------- C17: entity expansion ----------
+
+func verifPSM(msg *descriptorpb.DescriptorProto) (string, schema_j5pb.EntityPart, bool) {
+	if msg == nil || msg.Options == nil {
+		return "", 0, false
+	}
+	o, _ := proto.GetExtension(msg.Options, ext_j5pb.E_Psm).(*ext_j5pb.PSMOptions)
+	if o == nil {
+		return "", 0, false
+	}
+	return o.EntityName, o.GetEntityPart(), true
+}
+
+func verifFieldNames(msg *descriptorpb.DescriptorProto) []string {
+	out := []string{}
+	for _, f := range msg.Field {
+		out = append(out, f.GetName())
+	}
+	return out
+}
+
+func verifStringsEqual(a, b []string) bool {
+	if len(a) != len(b) {
+		return false
+	}
+	for i := range a {
+		if a[i] != b[i] {
+			return false
+		}
+	}
+	return true
+}
+
+func HarnessEntity() {
+	// one family of the declaration varies at a time, the others stay at a
+	// representative default: the space is the sum of the family spaces
+	focus := ndChoice("focus", 6)
+	rng := func(f int, name string, lo, hi, def int) int {
+		if focus == f {
+			return ndIntRange(name, lo, hi)
+		}
+		return def
+	}
+	flag := func(f int, name string, def bool) bool {
+		if focus == f {
+			return ndBool(name)
+		}
+		return def
+	}
+	casing := rng(0, "casing", 0, 2, 1)
+	entName := []string{"foo", "fooBar", "foo_bar"}[casing]
+	camel := []string{"Foo", "FooBar", "FooBar"}[casing]
+	snake := []string{"foo", "foo_bar", "foo_bar"}[casing]
+	screaming := []string{"FOO", "FOO_BAR", "FOO_BAR"}[casing]
+
+	nKeys := rng(0, "keys", 1, verifParam("K", 2), 1)
+	type keySpec struct{ isKeyType, primary, shard bool }
+	keySpecs := make([]keySpec, nKeys)
+	keys := []*sourcedef_j5pb.EntityKey{}
+	keyNames := []string{"fooId", "tenantId", "third"}
+	for i := range keySpecs {
+		ks := keySpec{isKeyType: flag(0, "keyTyped", true), primary: flag(0, "primary", true), shard: flag(0, "shard", false)}
+		if i == 0 {
+			ks.isKeyType, ks.primary = true, true // an entity has at least one primary key
+		}
+		keySpecs[i] = ks
+		var f *schema_j5pb.Field
+		if ks.isKeyType {
+			kf := &schema_j5pb.KeyField{Format: &schema_j5pb.KeyFormat{Type: &schema_j5pb.KeyFormat_Uuid{Uuid: &schema_j5pb.KeyFormat_UUID{}}}}
+			if ks.primary {
+				kf.Entity = &schema_j5pb.EntityKey{Type: &schema_j5pb.EntityKey_PrimaryKey{PrimaryKey: true}}
+			}
+			f = &schema_j5pb.Field{Type: &schema_j5pb.Field_Key{Key: kf}}
+		} else {
+			f = verifField(fString)
+		}
+		keys = append(keys, &sourcedef_j5pb.EntityKey{Def: &schema_j5pb.ObjectProperty{Name: keyNames[i], Schema: f}, ShardKey: ks.shard})
+	}
+	nData := rng(1, "data", 0, 2, 1)
+	data := []*schema_j5pb.ObjectProperty{}
+	for i := 0; i < nData; i++ {
+		data = append(data, &schema_j5pb.ObjectProperty{Name: []string{"name", "count"}[i], Schema: verifField([]int{fString, fInt32}[i])})
+	}
+	nStatus := rng(1, "statuses", 1, 3, 2)
+	statusNames := []string{"ACTIVE", "DONE", "GONE"}
+	status := []*schema_j5pb.Enum_Option{}
+	for i := 0; i < nStatus; i++ {
+		status = append(status, &schema_j5pb.Enum_Option{Name: statusNames[i]})
+	}
+	nEvents := rng(2, "events", 0, 2, 1)
+	eventNames := []string{"Created", "Updated"}
+	events := []*sourcedef_j5pb.Object{}
+	for i := 0; i < nEvents; i++ {
+		events = append(events, &sourcedef_j5pb.Object{Def: &schema_j5pb.Object{Name: eventNames[i], Properties: []*schema_j5pb.ObjectProperty{{Name: "note", Schema: verifField(fString)}}}})
+	}
+	nCommands := rng(3, "commands", 0, 2, 0)
+	commands := []*sourcedef_j5pb.Service{}
+	cmdNamed := make([]bool, nCommands)
+	for i := 0; i < nCommands; i++ {
+		svc := &sourcedef_j5pb.Service{Methods: []*sourcedef_j5pb.APIMethod{{
+			Name: []string{"DoIt", "UndoIt"}[i], HttpPath: "do", HttpMethod: client_j5pb.HTTPMethod_POST,
+			Request:  &sourcedef_j5pb.AnonymousObject{Properties: []*schema_j5pb.ObjectProperty{{Name: "why", Schema: verifField(fString)}}},
+			Response: &sourcedef_j5pb.AnonymousObject{},
+		}}}
+		cmdNamed[i] = flag(3, "commandNamed", false)
+		if cmdNamed[i] {
+			nm := []string{"Admin", "OpsCommand"}[i]
+			svc.Name = &nm
+		}
+		if flag(3, "commandBasePath", false) {
+			bp := "x"
+			svc.BasePath = &bp
+		}
+		commands = append(commands, svc)
+	}
+	nSummaries := rng(4, "summaries", 0, 2, 0)
+	summaries := []*sourcedef_j5pb.EntitySummary{}
+	for i := 0; i < nSummaries; i++ {
+		summaries = append(summaries, &sourcedef_j5pb.EntitySummary{Name: []string{"", "brief"}[i], Fields: []*schema_j5pb.ObjectProperty{{Name: "name", Schema: verifField(fString)}}})
+	}
+	ent := &sourcedef_j5pb.Entity{Name: entName, Keys: keys, Data: data, Status: status, Events: events, Commands: commands, Summaries: summaries}
+	if flag(5, "query", false) {
+		ent.Query = &sourcedef_j5pb.EntityQuery{EventsInGet: flag(5, "eventsInGet", false)}
+		if flag(5, "defaultFilter", false) {
+			ent.Query.DefaultStatusFilter = []string{"ACTIVE"}
+		}
+	}
+	src := verifSourceFile(&sourcedef_j5pb.RootElement{Type: &sourcedef_j5pb.RootElement_Entity{Entity: ent}})
+	files, err := verifCompile(src)
+	// two unnamed command services would collide; that is a declared-name clash, not part of the claim
+	unnamed := 0
+	for _, n := range cmdNamed {
+		if !n {
+			unnamed++
+		}
+	}
+	if unnamed > 1 {
+		return
+	}
+	verifAssert(err == nil, "entity-accepted")
+	if err != nil {
+		return
+	}
+	main := verifFindFile(files, "a/v1/x.j5s.proto")
+	svcFile := verifFindFile(files, "a/v1/service/x.p.j5s.proto")
+	topicFile := verifFindFile(files, "a/v1/topic/x.p.j5s.proto")
+	verifAssert(main != nil && svcFile != nil && topicFile != nil, "main-service-and-topic-files-emitted")
+	if main == nil || svcFile == nil || topicFile == nil {
+		return
+	}
+	// the six schemas, named from the entity name
+	mKeys, mData, mState, mEventType, mEvent := verifFindMessage(main, camel+"Keys"), verifFindMessage(main, camel+"Data"), verifFindMessage(main, camel+"State"), verifFindMessage(main, camel+"EventType"), verifFindMessage(main, camel+"Event")
+	verifAssert(mKeys != nil && mData != nil && mState != nil && mEventType != nil && mEvent != nil, "keys-data-state-eventtype-event-messages")
+	var eStatus *descriptorpb.EnumDescriptorProto
+	for _, e := range main.EnumType {
+		if e.GetName() == camel+"Status" {
+			eStatus = e
+		}
+	}
+	verifAssert(eStatus != nil, "status-enum")
+	if mKeys == nil || mData == nil || mState == nil || mEventType == nil || mEvent == nil || eStatus == nil {
+		return
+	}
+	// the same entity annotation on every part
+	for _, pair := range []struct {
+		m    *descriptorpb.DescriptorProto
+		part schema_j5pb.EntityPart
+	}{{mKeys, schema_j5pb.EntityPart_KEYS}, {mData, schema_j5pb.EntityPart_DATA}, {mState, schema_j5pb.EntityPart_STATE}, {mEvent, schema_j5pb.EntityPart_EVENT}} {
+		name, part, ok := verifPSM(pair.m)
+		verifAssert(ok && name == snake && part == pair.part, "psm-annotation-on-each-part")
+	}
+	// State and Event field lists
+	verifAssert(verifStringsEqual(verifFieldNames(mState), []string{"metadata", "keys", "data", "status"}), "state-fields")
+	verifAssert(verifStringsEqual(verifFieldNames(mEvent), []string{"metadata", "keys", "event"}), "event-fields")
+	for i, f := range mState.Field {
+		verifAssert(f.GetNumber() == int32(i+1), "state-field-numbers")
+	}
+	verifAssert(mState.Field[0].GetTypeName() == ".j5.state.v1.StateMetadata" && mEvent.Field[0].GetTypeName() == ".j5.state.v1.EventMetadata", "metadata-types")
+	verifAssert(mState.Field[1].GetTypeName() == ".a.v1."+camel+"Keys" && mEvent.Field[1].GetTypeName() == ".a.v1."+camel+"Keys", "keys-ref")
+	for _, kf := range []*descriptorpb.FieldDescriptorProto{mState.Field[1], mEvent.Field[1]} {
+		fo, _ := proto.GetExtension(kf.Options, ext_j5pb.E_Field).(*ext_j5pb.FieldOptions)
+		verifAssert(fo != nil && fo.GetObject() != nil && fo.GetObject().Flatten, "keys-are-flattened")
+	}
+	verifAssert(mState.Field[2].GetTypeName() == ".a.v1."+camel+"Data" && mState.Field[3].GetTypeName() == ".a.v1."+camel+"Status", "data-and-status-refs")
+	verifAssert(mEvent.Field[2].GetTypeName() == ".a.v1."+camel+"EventType", "event-oneof-ref")
+	// keys / data field lists
+	verifAssert(len(mKeys.Field) == nKeys && len(mData.Field) == nData, "keys-and-data-fields")
+	// event oneof: exactly one option per declared event, pointing at the nested message of that name
+	verifAssert(len(mEventType.Field) == nEvents && len(mEventType.NestedType) == nEvents, "one-option-and-one-nested-message-per-event")
+	for i := 0; i < nEvents && i < len(mEventType.Field) && i < len(mEventType.NestedType); i++ {
+		f := mEventType.Field[i]
+		verifAssert(f.GetJsonName() == strcase.ToLowerCamel(eventNames[i]) && f.GetNumber() == int32(i+1) && f.OneofIndex != nil, "event-option-named-and-numbered")
+		verifAssert(f.GetTypeName() == ".a.v1."+camel+"EventType."+eventNames[i], "event-option-points-at-nested-message")
+		verifAssert(mEventType.NestedType[i].GetName() == eventNames[i], "nested-event-message-name")
+	}
+	// statuses numbered in declaration order after UNSPECIFIED
+	verifAssert(len(eStatus.Value) == nStatus+1 && eStatus.Value[0].GetName() == screaming+"_STATUS_UNSPECIFIED" && eStatus.Value[0].GetNumber() == 0, "status-unspecified-zero")
+	for i := 0; i < nStatus && i+1 < len(eStatus.Value); i++ {
+		verifAssert(eStatus.Value[i+1].GetName() == screaming+"_STATUS_"+statusNames[i] && eStatus.Value[i+1].GetNumber() == int32(i+1), "statuses-in-declaration-order")
+	}
+	// primary keys are required
+	for i, ks := range keySpecs {
+		if ks.isKeyType && ks.primary && i < len(mKeys.Field) {
+			vr, _ := proto.GetExtension(mKeys.Field[i].Options, validate.E_Field).(*validate.FieldConstraints)
+			verifAssert(vr != nil && vr.GetRequired(), "primary-key-required")
+		}
+	}
+	// query service: Get, List, Events with primary(+shard) keys as path parameters in declaration order
+	q := verifFindService(svcFile, camel+"QueryService")
+	verifAssert(q != nil, "query-service")
+	if q != nil {
+		get, list, evs := verifFindMethod(q, camel+"Get"), verifFindMethod(q, camel+"List"), verifFindMethod(q, camel+"Events")
+		verifAssert(get != nil && list != nil && evs != nil && len(q.Method) == 3, "get-list-events-methods")
+		wantGet := "/a/v1/" + snake + "/q"
+		wantList := "/a/v1/" + snake + "/q"
+		for i, ks := range keySpecs {
+			sn := strcase.ToSnake(keyNames[i])
+			if ks.isKeyType && (ks.primary || ks.shard) {
+				wantGet += "/{" + sn + "}"
+			}
+			if ks.isKeyType && ks.shard {
+				wantList += "/{" + sn + "}"
+			}
+		}
+		if get != nil && list != nil && evs != nil {
+			v1, p1, _ := verifHTTP(get)
+			v2, p2, _ := verifHTTP(list)
+			v3, p3, _ := verifHTTP(evs)
+			verifAssert(v1 == "GET" && v2 == "GET" && v3 == "GET", "query-methods-are-GET")
+			verifAssert(p1 == wantGet, "get-path-is-primary-keys-in-order")
+			verifAssert(p3 == wantGet+"/events", "events-path-is-get-path-plus-events")
+			verifAssert(p2 == wantList, "list-path-is-shard-keys")
+		}
+		so, _ := proto.GetExtension(q.Options, ext_j5pb.E_Service).(*ext_j5pb.ServiceOptions)
+		verifAssert(so != nil && so.GetStateQuery() != nil && so.GetStateQuery().Entity == snake, "query-service-entity-annotation")
+	}
+	// command services
+	for i := 0; i < nCommands; i++ {
+		want := camel + "CommandService"
+		if cmdNamed[i] {
+			want = []string{"AdminCommandService", "OpsCommandService"}[i]
+		}
+		cs := verifFindService(svcFile, want)
+		verifAssert(cs != nil, "command-service-present")
+		if cs != nil {
+			so, _ := proto.GetExtension(cs.Options, ext_j5pb.E_Service).(*ext_j5pb.ServiceOptions)
+			verifAssert(so != nil && so.GetStateCommand() != nil && so.GetStateCommand().Entity == snake, "command-service-entity-annotation")
+		}
+	}
+	verifAssert(len(svcFile.Service) == 1+nCommands, "exactly-query-plus-declared-command-services")
+	// publish topic and one upsert topic per summary
+	pub := verifFindService(topicFile, camel+"PublishTopic")
+	verifAssert(pub != nil, "publish-topic")
+	if pub != nil {
+		cfg, _ := proto.GetExtension(pub.Options, messaging_j5pb.E_Service).(*messaging_j5pb.ServiceConfig)
+		verifAssert(cfg != nil && cfg.GetEvent() != nil && cfg.GetEvent().EntityName == "a.v1."+camel, "publish-topic-entity-annotation")
+	}
+	for i := 0; i < nSummaries; i++ {
+		want := camel + []string{"Summary", "Brief"}[i] + "Topic"
+		ts := verifFindService(topicFile, want)
+		verifAssert(ts != nil, "summary-upsert-topic-present")
+		if ts != nil {
+			cfg, _ := proto.GetExtension(ts.Options, messaging_j5pb.E_Service).(*messaging_j5pb.ServiceConfig)
+			verifAssert(cfg != nil && cfg.GetUpsert() != nil && cfg.GetUpsert().EntityName == "a.v1."+camel, "summary-topic-entity-annotation")
+		}
+	}
+	verifAssert(len(topicFile.Service) == 1+nSummaries, "exactly-publish-plus-summary-topics")
 }
